@@ -346,11 +346,117 @@ def r4_pointer_lists(rule, root=None):
         rule.bad("scratch", "the short-batch path must resize the scratch rows to vars.len() and copy each input into its row", A.where(fn))
 
 
+def r_trace_copy(rule, root=None):
+    """`Trace::copy_from` reuses an allocation that held another trace: afterwards `self` must equal `other`
+    whatever it held before - in particular its *length* must be other's (a longer old trace must not leave a
+    tail behind).  The body is read as a sequence of length effects on the destination vector."""
+    import itertools
+
+    n = 0
+    for path, self_ty in (("fidget-core/src/vm/mod.rs", "VmTrace"), ("fidget-core/src/eval/mod.rs", None)):
+        for f in A.load(path, root)["_fns"]:
+            ow = f.get("_owner") or {}
+            if f["name"] != "copy_from" or (ow.get("trait") or "") != "Trace" or f.get("body") is None:
+                continue
+            n += 1
+            params = [A.binding_name(i_["pat"]) for i_ in f["sig"]["inputs"] if isinstance(i_, dict) and "pat" in i_]
+            other = params[0] if params else "other"
+            view = f["body"]
+            dst = "self.0" if "self.0" in str(A.ftxt(view)) else "self"
+            src = "%s.0" % other if dst == "self.0" else other
+
+            def length_after(s0, o0):
+                """destination length after the body, for initial lengths (s0, o0); None = unknown / would panic"""
+                ln = s0
+                env = {}
+
+                def val(e):
+                    t = str(A.ftxt(A.strip(e)))
+                    t = t.replace("%s.len()" % dst, "L").replace("%s.len()" % src, "O")
+                    for k_, v_ in env.items():
+                        t = re.sub(r"\b%s\b" % re.escape(k_), "(%s)" % v_, t)
+                    t = re.sub(r"\(?(\w+|\([^()]*\))\.min\((\w+|\([^()]*\))\)\)?", r"min(\1,\2)", t)
+                    t = re.sub(r"\(?(\w+|\([^()]*\))\.max\((\w+|\([^()]*\))\)\)?", r"max(\1,\2)", t)
+                    if not re.fullmatch(r"[LO0-9()+\-*,minax ]+", t):
+                        return None
+                    try:
+                        return eval(t, {"__builtins__": {}}, {"L": ln, "O": o0, "min": min, "max": max})
+                    except Exception:  # noqa: BLE001
+                        return None
+
+                for st in view["stmts"]:
+                    if st.get("k") == "Let":
+                        nm = A.binding_name(st["pat"])
+                        v_ = val(st["init"]) if st.get("init") is not None else None
+                        if nm and v_ is not None:
+                            env[nm] = v_
+                        continue
+                    e = A.strip(A.stmt_expr(st) or {})
+                    if e.get("k") == "Macro":
+                        continue
+                    if e.get("k") == "Assign" and str(A.ftxt(e["left"])) == dst and str(A.ftxt(e["right"])) in ("%s.clone()" % src, "%s.to_vec()" % src):
+                        ln = o0
+                        continue
+                    if e.get("k") != "MethodCall":
+                        return None
+                    recv = str(A.ftxt(A.strip(e["recv"])))
+                    m_ = e["method"]
+                    if recv == dst and m_ == "resize" and e["args"]:
+                        v_ = val(e["args"][0])
+                        if v_ is None:
+                            return None
+                        ln = v_
+                    elif recv == dst and m_ == "clear":
+                        ln = 0
+                    elif recv == dst and m_ == "truncate" and e["args"]:
+                        v_ = val(e["args"][0])
+                        if v_ is None:
+                            return None
+                        ln = min(ln, v_)
+                    elif recv == dst and m_ == "clone_from":
+                        ln = o0
+                    elif recv == dst and m_ in ("extend_from_slice", "extend") and e["args"]:
+                        a = str(A.ftxt(A.strip(e["args"][0]))).lstrip("&")
+                        mm = re.fullmatch(re.escape(src) + r"(?:\[(.*)\.\.\])?(?:\.iter\(\)(?:\.copied\(\)|\.cloned\(\))?)?", a)
+                        if not mm:
+                            return None
+                        start = 0
+                        if mm.group(1):
+                            fake = {"k": "Path", "segs": [mm.group(1)]} if mm.group(1).isidentifier() else None
+                            start = env.get(mm.group(1)) if fake is not None else None
+                            if start is None:
+                                return None
+                        ln = ln + (o0 - start)
+                    elif m_ == "copy_from_slice":
+                        # whole-vector copy needs equal lengths (else it panics); a prefix copy leaves the length
+                        if recv == dst and str(A.ftxt(A.strip(e["args"][0]))).lstrip("&") == src:
+                            if ln != o0:
+                                return None
+                    else:
+                        return None
+                return ln
+
+            bad = None
+            for s0, o0 in itertools.product((0, 2, 5), (0, 3, 5)):
+                got = length_after(s0, o0)
+                if got != o0:
+                    bad = (s0, o0, got)
+                    break
+            if bad is None:
+                rule.ok("%s::copy_from leaves the destination with the source's length whatever it held" % (self_ty or "Vec<T>"), file=path, line=f["ln"])
+            else:
+                rule.bad("trace|copy_from|%s" % (self_ty or "Vec"), "%s::copy_from: a destination that held %d choices ends with %s after copying a trace of %d (the recycled allocation keeps a stale tail / the body is not a copy the checker can follow); the copy must equal its source whatever the allocation held before" % (self_ty or "Vec<T>", bad[0], bad[2] if bad[2] is not None else "an unknown length", bad[1]), A.where(f))
+    if n < 2:
+        rule.lost("the two Trace::copy_from implementations (found %d)" % n)
+
+
 def run(ctx):
     r = ctx.rule("R1", "every evaluator sizes (and for choices, refills) its buffers from the tape before evaluating", 19)
     ctx.guarded(r, r1_buffers)
     r = ctx.rule("R2", "reset() of allocator, workspace and tapes re-initialises every field; simplify resets recycled storage", 16)
     ctx.guarded(r, r2_resets)
+    r = ctx.rule("R2b", "copying a trace into a recycled allocation leaves exactly the source trace", 2)
+    ctx.guarded(r, r_trace_copy)
     r = ctx.rule("R3", "recycled executable memory is overwritten from offset 0 and grown before a write past capacity", 4)
     ctx.guarded(r, r3_mmap)
     r = ctx.rule("R4", "pointer lists are cleared before each refill; scratch lanes refilled", 7)
